@@ -6,6 +6,7 @@ import (
 	"errors"
 	"sync"
 
+	"github.com/f1bonacc1/process-compose/src/health"
 	"github.com/f1bonacc1/process-compose/src/types"
 )
 
@@ -73,10 +74,30 @@ func VerifC04_Project() {
 			confs[i].RestartPolicy.ExitOnSkipped = true
 		}
 	}
-	// one optional dependency p2 -> p0 (completed_successfully) so that skips occur
-	if verifChooseK("edge.p2.p0", 2) == 1 {
+	// one optional dependency p2 -> p0 so that skips occur: completed_successfully, or healthy on a
+	// p0 with a readiness probe that may also fail before its launch (bad working directory)
+	switch verifChooseK("edge.p2.p0", 3) {
+	case 1:
 		confs[2].DependsOn["p0"] = types.ProcessDependency{Condition: types.ProcessConditionCompletedSuccessfully}
 		if confs[2].RestartPolicy.ExitOnSkipped && len(w.behav["p0"].codes) > 0 && w.behav["p0"].codes[0] != 0 {
+			ownCodes[1] = true
+			anyTriggerPossible = true
+		}
+	case 2:
+		vBindHealth()
+		confs[2].DependsOn["p0"] = types.ProcessDependency{Condition: types.ProcessConditionHealthy}
+		confs[0].ReadinessProbe = &health.Probe{Exec: &health.ExecProbe{Command: "check"}}
+		if verifChooseK("p0.bad.working.dir", 2) == 1 {
+			confs[0].WorkingDir = "/verif-no-such-dir"
+			verifBind("os.Stat", vStatMissing)
+			// p0 fails before its launch with exit code 1: that is its own code if it triggers
+			if confs[0].RestartPolicy.Restart == types.RestartPolicyExitOnFailure || confs[0].RestartPolicy.ExitOnEnd {
+				ownCodes[1] = true
+				anyTriggerPossible = true
+			}
+		}
+		// no probe result is ever delivered: p2 can only be skipped (exit_on_skipped reports 1)
+		if confs[2].RestartPolicy.ExitOnSkipped {
 			ownCodes[1] = true
 			anyTriggerPossible = true
 		}
